@@ -158,7 +158,8 @@ func (e *env) files() []string {
 	var out []string
 	root := filepath.Join(e.dir, "verif")
 	_ = filepath.WalkDir(root, func(p string, d os.DirEntry, err error) error {
-		if err == nil && !d.IsDir() {
+		if err == nil && !d.IsDir() && !strings.HasPrefix(d.Name(), ".tmp-") {
+			// (the temporary file of a Set that never finished is not a stored value)
 			rel, _ := filepath.Rel(root, p)
 			out = append(out, rel)
 		}
@@ -174,6 +175,19 @@ func (e *env) runSeq(id, tier string, nops int) {
 		e.emit("S\tFATAL\t%s", hx(err.Error()))
 		e.emit("E\t%s", id)
 		return
+	}
+	// the leftover of a Set that crashed before its rename (a ".tmp-…" file next to the key files, and one inside a
+	// fragment directory once there is one) is no key and hides no key
+	plantLeftover := func() {
+		root := filepath.Join(e.dir, "verif")
+		_ = os.MkdirAll(root, 0o755)
+		_ = os.WriteFile(filepath.Join(root, ".tmp-leftover-1"), []byte("partial"), 0o600)
+		_ = filepath.WalkDir(root, func(p string, d os.DirEntry, err error) error {
+			if err == nil && d.IsDir() && p != root {
+				_ = os.WriteFile(filepath.Join(p, ".tmp-leftover-2"), []byte("partial"), 0o600)
+			}
+			return nil
+		})
 	}
 	var used []string
 	pickKey := func() string {
@@ -229,6 +243,9 @@ func (e *env) runSeq(id, tier string, nops int) {
 			e.emit("S\tDEL\t%s\t%s", hx(k), cls(err))
 		case 9:
 			if kl, ok := e.conn.(keyLister); ok {
+				if e.backend != "mem" && e.r.Intn(3) == 0 {
+					plantLeftover()
+				}
 				p := ""
 				if len(used) > 0 && e.r.Intn(2) == 0 {
 					k := used[e.r.Intn(len(used))]
@@ -522,10 +539,14 @@ func (e *env) runEnc(id, tier string) {
 		case "good":
 			return encKey
 		case "bad":
-			if n%2 == 0 {
+			switch n % 3 {
+			case 0:
 				return "!!!"
+			case 1:
+				return "QUJD"
 			}
-			return "QUJD"
+			// 48 bytes: longer than any AES key (not usable — and not to be cut down to one that is)
+			return "AAECAwQFBgcICQoLDA0ODxAREhMUFRYXGBkaGxwdHh8gISIjJCUmJygpKissLS4v"
 		}
 		return ""
 	}
